@@ -656,8 +656,10 @@ class M:
         return n
 
     def end_fail(self):
-        if getattr(self, 'tainted', False) is True:
-            self.tainted = False
+        # (the taint of the known savepoint-blob finding outlives the
+        # abort: a Blob object that was loaded from the left-over savepoint
+        # file is clean, so the abort does not invalidate it, and it goes
+        # on pointing at a file the abort removes)
         if self.dirty_blob_txn:
             self.nfail += 1
         for k, info in list(self.blobs.items()):
